@@ -266,6 +266,27 @@ func (sp *safetyPass) call(st *State, in ssa.Instruction, cc *ssa.CallCommon) {
 		}
 		return
 	}
+	// a nilable source handed, unguarded, to a first-party function that dereferences that parameter
+	// without ever testing it (the dereference happens in the callee, the missing guard is here)
+	if sp.on["NILSRC"] && FirstParty(fn) && len(fn.Blocks) > 0 {
+		for i, a := range cc.Args {
+			if i >= len(fn.Params) || !derefType(a.Type()) {
+				continue
+			}
+			src, guard, ok := sp.nilSource(st, a)
+			if !ok || guard {
+				continue
+			}
+			if n, _ := sp.ex.NilState(st, a); n == 0 {
+				continue
+			}
+			if !derefsParamUnguarded(fn, i, 0) {
+				continue
+			}
+			desc := "argument " + strconv.Itoa(i) + " of " + fn.Name() + ": " + sp.ex.Canon(nil, a).S
+			sp.add("NILSRC", "call", desc, in, Violated, fmt.Sprintf("nilable source (%s) is passed with no dominating non-nil fact to %s, which dereferences that parameter without testing it", src, shortFn(fn)), st)
+		}
+	}
 	// library routines that index their argument
 	if nl, ok := needsLen[fn.String()]; ok && sp.on["BOUNDS"] && nl[0] < len(cc.Args) {
 		sp.needLen(st, in, cc.Args[nl[0]], nl[1], fn.String())
@@ -1418,4 +1439,61 @@ func rangeElemOfSameValue(idx, base ssa.Value, at ssa.Instruction) bool {
 		return false
 	}
 	return hb.Succs[0].Dominates(at.Block())
+}
+
+var derefsParamMemo = map[string]int{}
+
+// derefsParamUnguarded: fn dereferences its i-th parameter (field selection,
+// load, method call on an interface value, or handing it to a first-party
+// function that does) and never compares it with nil.
+func derefsParamUnguarded(fn *ssa.Function, i int, depth int) bool {
+	if i >= len(fn.Params) || len(fn.Blocks) == 0 || depth > 3 {
+		return false
+	}
+	k := fn.String() + "#" + strconv.Itoa(i)
+	if v, ok := derefsParamMemo[k]; ok {
+		return v == 1
+	}
+	derefsParamMemo[k] = 0
+	p := fn.Params[i]
+	refs := p.Referrers()
+	if refs == nil {
+		return false
+	}
+	for _, r := range *refs {
+		if b, ok := r.(*ssa.BinOp); ok && (b.Op == token.EQL || b.Op == token.NEQ) {
+			if isNilConst(b.X) || isNilConst(b.Y) {
+				return false // tested somewhere: the callee takes care of nil itself
+			}
+		}
+	}
+	res := false
+	for _, r := range *refs {
+		switch x := r.(type) {
+		case *ssa.FieldAddr:
+			res = res || x.X == ssa.Value(p)
+		case *ssa.UnOp:
+			res = res || (x.Op == token.MUL && x.X == ssa.Value(p))
+		case *ssa.IndexAddr:
+			if _, isPtr := p.Type().Underlying().(*types.Pointer); isPtr {
+				res = res || x.X == ssa.Value(p)
+			}
+		case ssa.CallInstruction:
+			cc := x.Common()
+			if cc.IsInvoke() && cc.Value == ssa.Value(p) {
+				res = true
+			}
+			if g := cc.StaticCallee(); g != nil && FirstParty(g) {
+				for j, a := range cc.Args {
+					if a == ssa.Value(p) && derefsParamUnguarded(g, j, depth+1) {
+						res = true
+					}
+				}
+			}
+		}
+	}
+	if res {
+		derefsParamMemo[k] = 1
+	}
+	return res
 }
